@@ -157,7 +157,8 @@ def run(prog, ctx):
                 n2 += 1
                 OBK = old_b_defs[v[1][1]]
                 p = tmf.term(n.ast.targets[0].slice)
-                guards = [g for (g, gn) in R.dominating_guards(fi, n, tmf) if gn.kind == "test" and n.loops and cf.in_loop(gn, n.loops[-1])]
+                guards = [R.positional_subst(fi, g, tmf) for (g, gn) in R.dominating_guards(fi, n, tmf)
+                          if gn.kind == "test" and n.loops and cf.in_loop(gn, n.loops[-1])]        # `for p, x in enumerate(PL)`: x is PL[p]
                 # membership guard  PL[p] in OPL  fixes the roles of the new and the old point list
                 mem = [g for g in guards if g[0] == "cmp" and g[1] == "In" and g[2][0] == "s" and g[2][2] == p and g[2][1][0] == "n" and g[3][0] == "n"]
                 in_old = bool(mem)
